@@ -62,6 +62,7 @@ def sec5():
           'Process-killing defects reachable by a remote client or by calling `Close` (all repaired): D1, D5, D6 (panics on',
           'client-controlled input or close of a shared channel), D3, D4, D14, D15 (send on closed channel / close of closed',
           'channel during shutdown), D17, D19 (client library), D23 (silent frame corruption rather than a crash).',
+          'D18 and D30 hang the client (Close never returns), D31 leaves a caller without a usable reply.',
           'D29 was found by the finished C16 check on the tree that already carried the other repairs.']
     return '\n'.join(o)
 
@@ -77,6 +78,8 @@ def sec6():
          '`fix:` commit (for D8 a forward `reintroduce.diff`, because later repairs touched the same lines).',
          '`tools/matrix.py` applies each variant to a scratch copy and runs all twenty checks on it; the table is its output.',
          'A variant counts as detected by a check when that check exits 1 with a VIOLATION line naming the construct.', '']
+    refs = {k: v for k, v in bank.items() if k.startswith('refactor-')}
+    bank = {k: v for k, v in bank.items() if not k.startswith('refactor-')}
     muts = {k: v for k, v in bank.items() if not k.startswith('revert-')}
     revs = {k: v for k, v in bank.items() if k.startswith('revert-')}
     own = 0
@@ -96,6 +99,11 @@ def sec6():
         o.append('| %s | %s | %s |' % (k, v['what'].replace('|', '/'), det))
     applied = [k for k, v in bank.items() if v['applies']]
     missed = [k for k in applied if not bank[k]['detected_by']]
+    o += ['', '**Behaviour-preserving refactorings (every check must stay silent).** %d refactorings, three per property, of different routine kinds; alarms raised: %s.' % (
+        len(refs), ', '.join('%s (%s)' % (k, ','.join(v['detected_by'])) for k, v in sorted(refs.items()) if v['detected_by']) or 'none'), '',
+        '| refactoring | kind and change | alarms |', '|---|---|---|']
+    for k in sorted(refs):
+        o.append('| %s | %s | %s |' % (k, refs[k]['what'].replace('|', '/').replace('\n', ' ')[:200], ', '.join(refs[k]['detected_by']) or 'none'))
     o += ['', 'Totals: %d variants (%d sub-agent, %d reverted fixes), %d apply to the current tree, %d detected by at least one check, %d sub-agent variants detected by the check of the property they were written against; missed: %s.' % (
         len(bank), len(muts), len(revs), len(applied), len(applied) - len(missed), own, ', '.join(missed) or 'none'), '',
         'How the checks got there. The first run of each batch missed a number of variants; every miss was answered by a',
@@ -107,12 +115,23 @@ def sec6():
         'base64/tag/shape agreement of the serializers (C14); handshake limit and code tables (C15); waiter removal and',
         'progress goroutine awaited (C16, C17); duplicate-callee rule shared by C03, C05 and C18; freshness followed through',
         'constructor-like callees, which removed an exemption that had hidden a C11 variant (C11, C12).',
+        'Round 2 (after all first-round variants were detected): new sub-agents were asked for subtler changes (later',
+        'clauses, secondary paths, sibling paths made to disagree, diffs a reviewer would approve). The first run missed',
+        'ten of them outright and attributed eight more only to a neighbouring property; each was answered by a rule stating',
+        'the clause: exclude_me honoured whenever given (C01); the give-up cancel names the caller\'s own request (C07);',
+        'client event delivery without goroutines (C08); the issued challenge is never an output buffer (C09); authorizer',
+        'exemption wired to its own option (C10); realm.close never on the router goroutine (C11); wire layout table of all',
+        'message structs and no narrowing of the type code (C14); control frames bound by the limit (C15); kill switch',
+        'recorded before the handler starts (C16); invocation goroutines never block on the peer alone, one timer per wait',
+        '(C17); and removal/timer/policy/shutdown-flag/local-copy rules shared between C01, C02, C03, C04, C05, C06, C13, C18.',
         'Variants that could not be kept: three "kill_all keeps the wrong session" variants fail the existing suite when',
         'ported to the repaired tree; two C17 variants fail the suite; one C06 variant stopped being a violation after the',
         'D4 repair (the timers are now joined).']
     return '\n'.join(o)
 
 t = open(V + '/DESIGN.tmpl.md').read()
+kfs = json.load(open(V + '/known_findings.json'))['findings']
+t = t.replace('@@NFIXED@@', str(sum(1 for f in kfs if f['status'] == 'fixed'))).replace('@@NKNOWN@@', str(sum(1 for f in kfs if f['status'] == 'known')) + ' is')
 t = t.replace('@@PROPERTIES@@', sec4()).replace('@@FINDINGS@@', sec5()).replace('@@SEEDED@@', sec6())
 open(V + '/DESIGN.md', 'w').write(t)
 print('DESIGN.md', len(t.splitlines()), 'lines')
